@@ -119,7 +119,8 @@ class Tally:
         self.terminated_checked = 0
         self.samples = []
 
-    def run(self, kind, texts):
+    def run(self, kind, texts, model=True):
+        """model=False: only the reference reader is compared with yang.Parse (texts on which the extracted model is too slow)"""
         res = self.res
         texts = list(texts)
         if not texts:
@@ -128,7 +129,7 @@ class Tally:
         pc = ["parse " + h for h in hs]
         sc = ["specparse " + h for h in hs]
         go = lib.run_go(pc)
-        ml = lib.run_ml(pc)
+        ml = lib.run_ml(pc) if model else go
         sp = lib.run_ml(sc)
         # the theorems speak about the text forced to end in a line break (what yang.Parse lexes): the reference
         # reader must not care
@@ -259,6 +260,13 @@ def run(res, tier, seed, proof):
     T.run_chunked("unicode-space", c16.unicode_space_texts())
     T.run_bytes("invalid-utf8", c16.invalid_utf8_texts())
     T.run_chunked("unicode-space-exhaustive", c16.unicode_space_exhaustive(4 if quick else 5))
+    # deep nesting: depths around powers of two and round numbers, with and without arguments / strings / siblings at every level,
+    # balanced and unbalanced.  The extracted model needs about 1 s at depth 1000 and 45 s at 5000 (it recomputes lengths per
+    # token), so beyond 1024 (2048 thorough) only the reference reader is compared with yang.Parse.
+    T.run("deep-nesting", c16.deep_texts(c16.DEPTHS))
+    if not quick:
+        T.run("deep-nesting", c16.deep_texts([2048], ["a{", "a x{"]))
+    T.run("deep-nesting:reader-only", c16.deep_texts(c16.DEEP_DEPTHS), model=False)
     T.run_chunked("multiline-grid", multiline_grid(24))
     T.run_chunked("grammar-directed", grammar_cases(rnd, 3000 if quick else 60000))
     T.run_chunked("malformed", malformed_cases(rnd, 300 if quick else 6000))
